@@ -102,3 +102,19 @@ impl State {
         Access::set_or_create(&mut self.last_access, path_id, version);
     }
 }
+
+#[cfg(feature = "verif-hooks")]
+impl State {
+    pub(super) fn verif_dump(&self) -> String {
+        let w: Vec<String> = self
+            .waiters
+            .iter()
+            .map(|id| id.as_usize().to_string())
+            .collect();
+        format!(
+            "Condvar la={} waiters=[{}]",
+            Access::verif_dump(&self.last_access),
+            w.join(",")
+        )
+    }
+}
